@@ -56,6 +56,20 @@ pub enum Depth {
 }
 
 impl Depth {
+    /// Depth bounds of a scenario are relative to the world root for rooted globs (whose root
+    /// segment is empty, so that depth counts the components of the absolute path): the harness
+    /// adds the component count of the world root's absolute path to every non-zero bound.
+    pub fn shifted(&self, shift: usize) -> Depth {
+        let s = |n: usize| if n == 0 { 0 } else { n + shift };
+        match *self {
+            Depth::Unbounded => Depth::Unbounded,
+            Depth::Max(n) => Depth::Max(n + shift),
+            Depth::Min(n) => Depth::Min(s(n)),
+            Depth::MinMax(p, q) => Depth::MinMax(s(p), s(q)),
+            Depth::Bounded(a, b) => Depth::Bounded(a.map(s), b.map(|n| n + shift)),
+        }
+    }
+
     /// The effective window `(min, max)` the documentation promises.
     pub fn window(&self) -> (usize, Option<usize>) {
         match *self {
